@@ -1461,6 +1461,7 @@ pub fn pooled_script(r: &mut Rng, index: u64, tier: Tier) -> (CaseCfg, Vec<Step>
         pingreq_cut_then_resume_script,
         refused_request_while_half_read_script,
         redelivery_under_a_tiny_limit_script,
+        connect_at_the_edge_of_the_arena_script,
     ];
     let k = (index as usize) % (POOL.len() * 4 + 1);
     if k == POOL.len() * 4 {
@@ -1676,5 +1677,52 @@ pub fn redelivery_under_a_tiny_limit_script(r: &mut Rng, _index: u64, _tier: Tie
     for _ in 0..3 {
         s.push(poll0());
     }
+    (cfg, s)
+}
+
+/// Shared (C12, C09, C01): the session has a will with a long property block (its length needs
+/// two bytes) and credentials; unacknowledged packets leave of the transmit arena just about what
+/// the CONNECT needs - a few bytes more, exactly that, a few bytes less; the connection is lost and
+/// the session connects again (resumed, or on a broker that lost it): the CONNECT goes out whole,
+/// from the arena or from the receive buffer, with will and credentials as configured.
+pub fn connect_at_the_edge_of_the_arena_script(r: &mut Rng, _index: u64, _tier: Tier) -> (CaseCfg, Vec<Step>) {
+    let up = r.range(120, 200);
+    let wprops = match r.below(3) {
+        0 => vec![Prop::UserProperty("k".into(), "v".repeat(up))],
+        1 => vec![Prop::ContentType("c".repeat(up)), Prop::WillDelay(5)],
+        _ => vec![Prop::UserProperty("a".into(), "b".repeat(up / 2)), Prop::ResponseTopic("r/".repeat(up / 4))],
+    };
+    let wlen: usize = crate::refcodec::props_encoded_len(&wprops);
+    let wp = r.range(0, 20);
+    let will = WillSpec { topic: "will/topic".into(), payload: r.bytes(wp), qos: r.below(3) as u8, retain: r.chance(1, 2), props: wprops };
+    let pw = r.range(0, 12);
+    let auth = if r.chance(1, 2) { Some(("user".to_string(), r.bytes(pw))) } else { None };
+    let client_id = "edge".to_string();
+    // CONNECT: fixed header 1 + 2, protocol name 6, level 1, flags 1, keep-alive 2, properties
+    // 1 + 5 + 5 + 3, client id 2 + n, will: property length (2) + block, topic 2 + n, payload 2 + n,
+    // user name 2 + n, password 2 + n
+    let est = 3 + 6 + 1 + 1 + 2 + 14 + 2 + client_id.len() + 2 + wlen + 2 + will.topic.len() + 2 + will.payload.len() + auth.as_ref().map_or(0, |(u, p)| 4 + u.len() + p.len());
+    let tx = *r.pick(&[1024usize, 2048]);
+    let cfg = CaseCfg { rx: 1024, tx, keepalive: 0, client_id, will: Some(will), auth, ..CaseCfg::default() };
+    let mut s = vec![connect_with(SpMode::Force(false), AckMode::Hold, vec![])];
+    // one or two unacknowledged packets leave `est + d` bytes
+    let leave = (est as i64 + r.below(21) as i64 - 10).max(0) as usize;
+    if r.chance(1, 2) {
+        s.push(pubq(2, "edge/first", 1, 5));
+    }
+    let used_so_far = if s.len() > 1 { 1 + 1 + 2 + 10 + 2 + 1 + 5 } else { 0 };
+    let fill = tx.saturating_sub(leave + used_so_far + 9);
+    s.push(Step::Publish(PubSpec { topic: "k".into(), payload: PayloadSpec::Fill { len: fill, tag: 0xED6E, ascii: false }, qos: 1, retain: false, props: vec![], correlate: None, cancel_at: None }));
+    s.push(match r.below(3) {
+        0 => Step::ForgetConn,
+        _ => Step::DropConn,
+    });
+    s.push(connect_with(if r.chance(3, 4) { SpMode::Force(true) } else { SpMode::Force(false) }, AckMode::Immediate, vec![]));
+    for _ in 0..4 {
+        s.push(poll0());
+    }
+    s.push(pubq(1, "edge/after", 3, 2));
+    s.push(poll0());
+    s.push(poll0());
     (cfg, s)
 }
